@@ -179,9 +179,18 @@ def batch_options(rng, mjm, m, nworld):
     other = [k for k in ("tolerance", "ls_tolerance", "meaninertia") if lens[k] > 1][int(rng.integers(3))]
     lens["impratio_invsqrt"], lens[other] = lens[other], 1
   imp = np.exp(rng.uniform(np.log(0.3), np.log(30.0), size=lens["impratio_invsqrt"]))
-  tol = 10.0 ** rng.uniform(-10, -5, size=lens["tolerance"])
+  # tolerances: tight entries next to very loose ones (a world that stops on ANOTHER world's loose tolerance, or whose
+  # cost is scaled with another world's meaninertia, ends up far outside its own tolerance -- otherwise Newton's quadratic
+  # convergence hides which entry was read)
+  tol = 10.0 ** rng.uniform(-10, -6, size=lens["tolerance"])
+  if tol.size > 1:
+    loose = rng.random(tol.size) < 0.35
+    if not loose.any() or loose.all():
+      loose[:] = False
+      loose[int(rng.integers(tol.size))] = True
+    tol = np.where(loose, 10.0 ** rng.uniform(-3, -1, size=tol.size), tol)
   lstol = 10.0 ** rng.uniform(-2.5, -1, size=lens["ls_tolerance"])
-  mi = float(mjm.stat.meaninertia) * np.exp(rng.uniform(np.log(0.3), np.log(3.0), size=lens["meaninertia"]))
+  mi = float(mjm.stat.meaninertia) * 10.0 ** rng.uniform(-1.5, 1.5, size=lens["meaninertia"])
   fri = np.array(mjm.geom_friction)[None] * np.exp(rng.uniform(np.log(0.5), np.log(2.0), size=(lens["geom_friction"], mjm.ngeom, 1)))
   inv32 = (1.0 / np.sqrt(imp)).astype(np.float32)
   tol32, ls32, mi32, fri32 = tol.astype(np.float32), lstol.astype(np.float32), mi.astype(np.float32), fri.astype(np.float32)
@@ -506,6 +515,10 @@ def run_case(case):
   states[0]["qacc_warmstart"] = np.zeros(mjm.nv, np.float32)
   states[1]["qacc_warmstart"] = (rng.normal(size=mjm.nv) * 10.0 * max(1.0, float(np.abs(ref_d[1].qacc).max()))).astype(np.float32)
   states[2]["qacc_warmstart"] = np.array(ref_d[2].qacc, dtype=np.float32) if np.all(np.isfinite(ref_d[2].qacc)) else np.zeros(mjm.nv, np.float32)
+  if optb and np.all(np.isfinite(ref_d[3].qacc)):
+    states[3]["qacc_warmstart"] = np.array(ref_d[3].qacc, dtype=np.float32)  # near-optimal, like world 2; worlds 4, 5 cold
+  for w in range(3, nworld):
+    states[w].setdefault("qacc_warmstart", np.zeros(mjm.nv, np.float32))
   d = mw.make_data(mjm, m, states, njmax=njmax, nconmax=max(48, 2 * ncon_need + 8), njmax_nnz=njmax * mjm.nv)
   nontriv = False
   kernels = set()
@@ -576,14 +589,13 @@ def run_case(case):
         rec.cover("elliptic_cones_middle_zone", int((P["state"][P["cone_idx0"]] == E.S_CONE).sum()))
       if optb and p == 0:
         # what makes a world of this family an observation: it is not world 0, its own option value differs from world 0's
-        # (and from the entry a read with ANOTHER option array's modulus would fetch), and the solve depends on it
+        # and the solver iterated (for impratio: with a contact on the cone surface, where the cost depends on mu)
         rec.cover("optbatch:worlds_judged", 1)
         nmid = int((P["state"][P["cone_idx0"]] == E.S_CONE).sum()) if P["cone_idx0"].size else 0
         for fld, arr in (("impratio_invsqrt", m.opt.impratio_invsqrt), ("tolerance", m.opt.tolerance), ("ls_tolerance", m.opt.ls_tolerance), ("meaninertia", m.stat.meaninertia)):
           a = mw.npy(arr)
           own = float(a[w % a.shape[0]])
-          others = {float(a[w % k]) for k in OPTB_LENS if k <= a.shape[0]}
-          if w >= 1 and (own != float(a[0]) or others != {own}) and niter[w] >= 1:
+          if w >= 1 and own != float(a[0]) and niter[w] >= 1:
             rec.cover("optbatch:worlds>=1_own_" + fld, 1)
             if fld == "impratio_invsqrt" and nmid:
               rec.cover("optbatch:worlds>=1_own_impratio_with_cone_surface_contact", 1)
@@ -657,6 +669,11 @@ def run_case(case):
     rec.cover("features", f)
   rec.cover("solver_kernels", sorted(kernels))
   rec.cover("kind:" + case["kind"], 1)
+  if optb:
+    rec.cover("optbatch:leading_sizes(impratio/tolerance/ls_tolerance/meaninertia/geom_friction)", "/".join(str(blens[k]) for k in ("impratio_invsqrt", "tolerance", "ls_tolerance", "meaninertia", "geom_friction")))
+    for k, v in blens.items():
+      if v > 1:
+        rec.cover("optbatch:cases_batched:" + k, 1)
   rec.cover("njmax_bucket", str(njmax))
   rec.cover("nv_class", "nv<=32" if mjm.nv <= 32 else "nv>32")
   if mjm.opt.disableflags & mujoco.mjtDisableBit.mjDSBL_WARMSTART:
@@ -684,6 +701,20 @@ def requirements(agg, tier):
   for k in ("judged_pass:first", "judged_pass:repeat", "warmstart:hostile:first", "warmstart:near_optimal:first"):
     if cov.get(k, 0) < 20:
       unmet.append(f"fewer than 20 judged worlds for {k}")
+  # per-world option family: a run in which no world >= 1 with its own option value was judged observed nothing of it
+  nq = tier == "quick"
+  for k, lo in (
+    ("optbatch:worlds>=1_own_impratio_with_cone_surface_contact", 15 if nq else 150),
+    ("optbatch:worlds>=1_own_tolerance", 15 if nq else 150),
+    ("optbatch:worlds>=1_own_ls_tolerance", 15 if nq else 150),
+    ("optbatch:worlds>=1_own_meaninertia", 15 if nq else 150),
+    ("optbatch:worlds>=1_own_geom_friction_with_cone", 10 if nq else 100),
+  ):
+    if cov.get(k, 0) < lo:
+      unmet.append(f"per-world options: {k} = {cov.get(k, 0)} < {lo}")
+  sizes = cov.get("optbatch:leading_sizes(impratio/tolerance/ls_tolerance/meaninertia/geom_friction)", [])
+  if len(sizes) < 6:
+    unmet.append(f"per-world options: only {len(sizes)} distinct combinations of leading sizes")
   if cov.get("gateable_worlds_gated", 0) < 0.5 * max(1, cov.get("gateable_worlds", 0)) or cov.get("gateable_worlds_gated", 0) < 30:
     unmet.append(f"MuJoCo certificate gated in {cov.get('gateable_worlds_gated', 0)} of {cov.get('gateable_worlds', 0)} worlds of analytic-narrowphase scenes (<50% or <30)")
   if agg["tally"].get("ORACLE_SELFTEST_FAILED", 0):
